@@ -20,6 +20,7 @@ REGISTRY = {
     "C12": ("auverif.props.c12", "run"),
     "C02": ("auverif.props.c02", "run"),
     "C13": ("auverif.props.c13", "run"),
+    "C08": ("auverif.props.c08", "run"),
 }
 
 
